@@ -813,6 +813,8 @@ def run_batch(exe, texts, tag, flavour="asan", timeout=600):
         for line in out.splitlines():
             if line.startswith("R "):
                 r = parse_result_line(line)
+                if r.sid in results and results[r.sid].words is not None:
+                    r.words = results[r.sid].words
                 results[r.sid] = r
             elif line.startswith("W "):
                 t = line.split(" ")
